@@ -920,7 +920,7 @@ func stress(c *lib.Ctx, r *lib.RNG) []lib.OracleFail {
 		}
 	}
 	rounds := c.Scale(800, 8000)
-	for round := 0; round < rounds; round++ {
+	for round := 0; round < rounds && len(fails) < 3; round++ { // three failures are enough (a stuck round costs the watchdog)
 		rr := r.Fork()
 		desc := fmt.Sprintf("free-running round %d of seed %d", round, c.Seed)
 		var trace []string // the deterministic part of the round, for the replay
@@ -976,8 +976,19 @@ func stress(c *lib.Ctx, r *lib.RNG) []lib.OracleFail {
 			h.mu.Unlock()
 		}
 		// set-up phase: hooks and private values, order known, every process running
+		// one case in five is CROWDED: 14–40 hooks on every process (a workflow of a dozen nodes opens that many
+		// ports for a process; each adds a hook, and forked children are entries of the same list). Every other
+		// case has 0–3. (Seeded change c04k: a sweep of "ended" children at the 17th entry dropped live ones.)
+		crowded := rr.Chance(1, 5)
+		if crowded {
+			c.Hit("schedules-crowded-hook-lists")
+		}
 		for p := range procs {
-			for k := rr.Intn(4); k > 0; k-- {
+			k := rr.Intn(4)
+			if crowded {
+				k = rr.Range(14, 40)
+			}
+			for ; k > 0; k-- {
 				h := pick(rr, p)
 				ord := ordc[[2]int{p, -1}]
 				ordc[[2]int{p, -1}]++
